@@ -53,10 +53,14 @@ Fixpoint mk_prog (is : list instr) (succs : list (list (option nat))) : res prog
   | _, _ => OK []
   end.
 
-(* enough fuel: every productive sweep adds at least one of at most 16 bits to one of the
-   ids mentioned; +2 for the final idle sweep *)
+(* enough fuel: every productive sweep adds at least one byte class that is read somewhere to one
+   of the 2n sets (proved sufficient in Proofs/LivenessTerm.v: liveness_terminates); +2 for the
+   final idle sweep *)
+Definition bits_of (m : N) : list N := List.map N.of_nat (seq 0 (N.to_nat (N.size m))).
+Definition use_bits (p : prog) : list (N * N) :=
+  flat_map (fun i => flat_map (fun e => List.map (fun k => (fst e, k)) (bits_of (snd e))) (map_to_list (iuse i))) p.
 Definition ids_of (p : prog) : list N := flat_map (fun i => List.map fst (map_to_list (iuse i))) p.
-Definition liveness_fuel (p : prog) : nat := S (S (length p * 16 * S (length (ids_of p)))).
+Definition liveness_fuel (p : prog) : nat := S (S (length p * (2 * length (use_bits p)))).
 
 (* -------------------------------------------------------------- specification (paths) *)
 Section Spec.
